@@ -565,6 +565,21 @@ func init() {
 	})
 
 	// ---- sort ----
+	// slices.overlaps compares uintptr(unsafe.Pointer(..)) ranges; in the heap model two slices overlap exactly when
+	// they view the same array object and their index ranges intersect.
+	reg("slices.overlaps", func(ex *Exec, g *G, fn *ssa.Function, args []Value, done func(Value)) {
+		a, _ := args[0].(SliceV)
+		b, _ := args[1].(SliceV)
+		if a.Len == 0 || b.Len == 0 || a.Arr == nil || b.Arr == nil || a.Arr != b.Arr {
+			done(ex.boolC(false))
+			return
+		}
+		if ex.E.Sizes.Sizeof(fn.Signature.Params().At(0).Type().Underlying().(*types.Slice).Elem()) == 0 {
+			done(ex.boolC(false))
+			return
+		}
+		done(ex.boolC(a.Off <= b.Off+b.Len-1 && b.Off <= a.Off+a.Len-1))
+	})
 	reg("sort.Slice|sort.SliceStable", func(ex *Exec, g *G, fn *ssa.Function, args []Value, done func(Value)) {
 		iv := args[0].(IfaceV)
 		sl := iv.V.(SliceV)
